@@ -351,3 +351,22 @@ Definition wire_68 (x : sx) : sx :=
       end
   | _ => sx_err
   end.
+
+(* (orig-values shape ((is-placeholder ((lo hi) ...)) ...)) -> _apply_data_lost(orig_flags, lost) as a flat array in C
+   order; each pair of `lost` is given as (the chunk is a PlaceholderChunk?, the slices) *)
+Definition wire_69 (x : sx) : sx :=
+  match x with
+  | L [orig; shape; lost] =>
+      let sh := to_Zs shape in
+      let ents : list entry :=
+        map (fun e => match e with
+                      | L [ph; sl] => (if to_bool ph then 1%nat else 0%nat, @nil nat,
+                                       map (fun s => match s with L [I lo; I hi] => (0%nat, lo, hi) | _ => (0%nat, 0, 0) end)
+                                           (to_list sl))
+                      | _ => (0%nat, @nil nat, @nil piece)
+                      end) (to_list lost) in
+      let o := to_Zs orig in
+      of_Zs (map (fun q => apply_data_lost (fun a _ => Nat.eqb a 1) (nth (Z.to_nat (lin sh q)) o 0) ents q)
+                 (product (map zrange sh)))
+  | _ => sx_err
+  end.
